@@ -1131,3 +1131,283 @@ Proof.
   - destruct sf_xfade0 as (o & F & _). unfold field_opt in F. rewrite Hv in F. destruct F as (a & F & _). eapply Ddur; [cbn; tauto|exact F].
   - rewrite Hv in sf_duration0. destruct sf_duration0 as (d & F & _). eapply Ddur; [cbn; tauto|exact F].
 Qed.
+
+(* ---------- count grouped: any sequence of groups, repeated and changing keys, either inner order ---------- *)
+
+Definition expected_group (g : bytes * count * bool) : bytes * (N * dur) :=
+  let '(v, c, _) := g in (v, (c_songs c, secs_dur (c_playtime c))).
+
+Lemma beq_songs_playtime : beq (b "playtime") (b "songs") = false /\ beq (b "songs") (b "songs") = true /\ beq (b "playtime") (b "playtime") = true.
+Proof. repeat split; vm_compute; reflexivity. Qed.
+
+Theorem count_grouped_roundtrip tagname gs : Forall (fun g => wf_count (snd (fst g))) gs ->
+  forall acc, count_grouped tagname None acc (enc_count_grouped tagname gs) = TOk (rev acc ++ map expected_group gs).
+Proof.
+  destruct beq_songs_playtime as (B1 & B2 & B3).
+  induction 1 as [|[[v c] swap] gs [W1 W2] _ IH]; intros acc.
+  - simpl. rewrite app_nil_r. reflexivity.
+  - unfold enc_count_grouped. cbn [flat_map enc_count_group]. simpl in W1, W2.
+    pose proof (from_uint_rt 64 (c_songs c) (b "songs") W1) as S1.
+    pose proof (parse_duration_secs (c_playtime c) (b "playtime") W2) as S2.
+    destruct swap; cbn [app count_grouped]; rewrite beq_refl.
+    + rewrite B1, B3, S2. cbn [isnone orb]. rewrite B2, S1. cbn [isnone orb].
+      fold (enc_count_grouped tagname gs). rewrite IH. cbn [rev map expected_group]. rewrite <- app_assoc. reflexivity.
+    + rewrite B2, S1. cbn [isnone orb]. rewrite B1, B3, S2. cbn [isnone orb].
+      fold (enc_count_grouped tagname gs). rewrite IH. cbn [rev map expected_group]. rewrite <- app_assoc. reflexivity.
+Qed.
+
+(* ---------- list ---------- *)
+
+(* a tag the server echoes under the name the client sent, and which parses back to an equal tag
+   (every named variant; Other(s) unless s is a known name in another letter case, C20) *)
+Definition tag_rt (t : tag) : Prop := exists u, tag_try_from (tag_as_str t) = TagOk u /\ tag_eq u t = true.
+
+Lemma tag_eq_sym t u : tag_eq t u = tag_eq u t.
+Proof. unfold tag_eq. destruct (beq (tag_as_str t) (tag_as_str u)) eqn:E.
+  - apply beq_eq in E. rewrite E. symmetry. apply beq_refl.
+  - destruct (beq (tag_as_str u) (tag_as_str t)) eqn:E2; [|reflexivity]. apply beq_eq in E2. rewrite E2, beq_refl in E. discriminate.
+Qed.
+
+Lemma tag_eq_trans_l t u w : tag_eq t u = true -> tag_eq t w = tag_eq u w.
+Proof. unfold tag_eq. intros H. apply beq_eq in H. rewrite H. reflexivity. Qed.
+
+Lemma set_nth_spec {A} n (x : A) l : (n < length l)%nat -> set_nth n x l = Some (firstn n l ++ x :: skipn (S n) l).
+Proof.
+  revert n; induction l as [|y r IH]; intros n H; simpl in H; [lia|].
+  destruct n as [|m]; [reflexivity|]. simpl. rewrite IH by lia. reflexivity.
+Qed.
+
+Lemma upd_length {A} i (x : A) l : (i < length l)%nat -> length (firstn i l ++ x :: skipn (S i) l) = length l.
+Proof.
+  revert i; induction l as [|y r IH]; intros i H; simpl in H; [lia|].
+  destruct i as [|j]; [reflexivity|]. simpl. f_equal. apply IH. lia.
+Qed.
+
+Lemma position_nodup (names : list bytes) i (f : bytes -> bool) :
+  NoDup names -> (i < length names)%nat -> (forall n, f n = beq n (nth i names [])) ->
+  position f names = Some i.
+Proof.
+  revert i; induction names as [|n r IH]; intros i ND Hi Hf; simpl in Hi; [lia|]. inversion ND; subst.
+  destruct i as [|j]; simpl.
+  - rewrite Hf. simpl. rewrite beq_refl. reflexivity.
+  - rewrite Hf. simpl. destruct (beq n (nth j r [])) eqn:E.
+    + apply beq_eq in E. exfalso. apply H1. rewrite E. apply nth_In. lia.
+    + rewrite (IH j); [reflexivity|assumption|lia|]. intros m. rewrite Hf. reflexivity.
+Qed.
+
+Lemma position_map {A B} (g : A -> B) (f : B -> bool) l : position f (map g l) = position (fun x => f (g x)) l.
+Proof. induction l as [|x r IH]; simpl; [reflexivity|]. rewrite IH. reflexivity. Qed.
+
+Definition row_value (r : list_row) : bytes * list bytes := (snd (fst r), snd r).
+
+(* headers applied through the iterator's own update *)
+Lemma grouped_iter_headers primary groups hs : forall cur rest,
+  NoDup (map tag_as_str (primary :: groups)) ->
+  Forall (fun h => (fst h < length groups)%nat) hs -> length cur = length groups ->
+  forall hdr_tags, Forall2 (fun h u => tag_eq u (nth (fst h) groups primary) = true) hs hdr_tags ->
+  grouped_iter primary groups cur (combine hdr_tags (map snd hs) ++ rest) =
+  grouped_iter primary groups (apply_headers hs cur) rest.
+Proof.
+  induction hs as [|[i v] hs IH]; intros cur rest ND Hi L hdr_tags F2.
+  { inversion F2; subst. reflexivity. }
+  inversion F2 as [|h0 u hs0 tags Hu Htags]; subst.
+  inversion Hi as [|h1 hs1 Hlt Hrest]; subst. cbn [fst snd] in *. cbn [map combine app grouped_iter apply_headers].
+  assert (Ni : In (nth i groups primary) groups) by (apply nth_In; assumption).
+  pose proof ND as ND'. simpl in ND'. inversion ND' as [|n0 l0 Hnotin NDg]; subst.
+  assert (Np : tag_eq u primary = false).
+  { rewrite (tag_eq_trans_l u (nth i groups primary) primary) by assumption. unfold tag_eq.
+    destruct (beq (tag_as_str (nth i groups primary)) (tag_as_str primary)) eqn:E; [|reflexivity].
+    apply beq_eq in E. exfalso. apply Hnotin. rewrite <- E. apply in_map. exact Ni. }
+  rewrite Np.
+  assert (P : position (fun g => tag_eq g u) groups = Some i).
+  { transitivity (position (fun n => beq n (tag_as_str u)) (map tag_as_str groups)); [rewrite position_map; reflexivity|].
+    apply position_nodup; [assumption|rewrite map_length; assumption|].
+    intros n. rewrite (nth_indep _ [] (tag_as_str primary)) by (rewrite map_length; assumption).
+    rewrite map_nth. unfold tag_eq in Hu. apply beq_eq in Hu. rewrite Hu. reflexivity. }
+  rewrite P. rewrite set_nth_spec by (rewrite L; assumption).
+  apply IH; try assumption.
+  rewrite upd_length by (rewrite L; assumption). exact L.
+Qed.
+
+Lemma apply_headers_length hs : forall cur n, Forall (fun h => (fst h < n)%nat) hs -> length cur = n -> length (apply_headers hs cur) = n.
+Proof.
+  induction hs as [|[i v] hs IH]; intros cur n F L; [exact L|]. inversion F as [|h0 hs0 Hlt Hrest]; subst.
+  cbn [fst] in *. cbn [apply_headers].
+  apply IH; [assumption|]. apply upd_length. assumption.
+Qed.
+
+(* the parsed form of an encoded listing: every key parses to a tag equal to the one it names *)
+Fixpoint parsed_rows (prim : tag) (hdrs : list (list tag)) (rows : list list_row) : list (tag * bytes) :=
+  match rows, hdrs with
+  | (hs, v, _) :: r, h :: hr => combine h (map snd hs) ++ (prim, v) :: parsed_rows prim hr r
+  | _, _ => []
+  end.
+
+Lemma grouped_iter_rows primary groups prim' : tag_eq prim' primary = true ->
+  NoDup (map tag_as_str (primary :: groups)) ->
+  forall rows cur hdrs, length cur = length groups -> rows_ok (length groups) cur rows ->
+  Forall2 (fun (row : list_row) h => Forall2 (fun x u => tag_eq u (nth (fst x) groups primary) = true) (fst (fst row)) h) rows hdrs ->
+  grouped_iter primary groups cur (parsed_rows prim' hdrs rows) = TOk (map row_value rows).
+Proof.
+  intros Ep ND. induction rows as [|[[hs v] gs] rows IH]; intros cur hdrs L OK F2; inversion F2; subst; [reflexivity|].
+  destruct OK as (Hi & Happ & OK). cbn [parsed_rows fst snd] in *.
+  rewrite (grouped_iter_headers primary groups hs cur _ ND Hi L y H1).
+  cbn [grouped_iter]. rewrite Ep. rewrite Happ. rewrite (IH gs l'); [reflexivity| |exact OK|assumption].
+  rewrite <- Happ. apply apply_headers_length; assumption.
+Qed.
+
+Lemma list_fields_app x y : list_fields (x ++ y) = tbind (list_fields x) (fun a => tmap (app a) (list_fields y)).
+Proof.
+  induction x as [|[k v] r IH]; simpl; [destruct (list_fields y); reflexivity|].
+  destruct (tag_try_from k); try reflexivity. rewrite IH. destruct (list_fields r); simpl; try reflexivity.
+  destruct (list_fields y); reflexivity.
+Qed.
+
+Lemma list_fields_headers groups primary (hs : list (nat * bytes)) :
+  Forall tag_rt groups -> tag_rt primary -> Forall (fun h => (fst h < length groups)%nat) hs ->
+  exists tags, list_fields (map (fun h => (nth (fst h) (map tag_as_str groups) [], snd h)) hs) = TOk (combine tags (map snd hs)) /\
+               Forall2 (fun h u => tag_eq u (nth (fst h) groups primary) = true) hs tags.
+Proof.
+  intros RG RP. induction hs as [|[i v] hs IH]; intros F; [exists []; split; [reflexivity|constructor]|].
+  inversion F; subst. cbn [fst snd] in *. destruct (IH H2) as (tags & E & F2).
+  assert (RT : tag_rt (nth i groups primary)). { rewrite Forall_forall in RG. apply RG. apply nth_In. assumption. }
+  destruct RT as (u & Eu & Equ).
+  exists (u :: tags). split; [|constructor; assumption].
+  cbn [map list_fields fst snd]. rewrite (nth_indep _ [] (tag_as_str primary)) by (rewrite map_length; assumption).
+  rewrite map_nth, Eu, E. reflexivity.
+Qed.
+
+Theorem list_grouped_roundtrip primary groups rows :
+  tag_rt primary -> Forall tag_rt groups -> NoDup (map tag_as_str (primary :: groups)) ->
+  rows_ok (length groups) (map (fun _ => []) groups) rows ->
+  tbind (list_model primary groups (enc_list (tag_as_str primary) (map tag_as_str groups) rows)) grouped_values
+  = TOk (map row_value rows).
+Proof.
+  intros RP RG ND OK. destruct RP as (pu & Epu & Eqpu).
+  assert (RP : tag_rt primary) by (exists pu; auto).
+  assert (E : forall rows cur, rows_ok (length groups) cur rows ->
+              exists hdrs, list_fields (enc_list (tag_as_str primary) (map tag_as_str groups) rows) = TOk (parsed_rows pu hdrs rows) /\
+                Forall2 (fun (row : list_row) h => Forall2 (fun x u => tag_eq u (nth (fst x) groups primary) = true) (fst (fst row)) h) rows hdrs).
+  { clear OK rows. induction rows as [|[[hs v] gs] rows IH]; intros cur OK; [exists []; split; [reflexivity|constructor]|].
+    destruct OK as (Hi & Happ & OK). destruct (IH gs OK) as (hdrs & E1 & F1).
+    destruct (list_fields_headers groups primary hs RG RP Hi) as (tags & E2 & F2).
+    exists (tags :: hdrs). split; [|constructor; assumption].
+    unfold enc_list. cbn [flat_map enc_list_row]. fold (enc_list (tag_as_str primary) (map tag_as_str groups) rows).
+    rewrite <- app_assoc, list_fields_app, E2. cbn [tbind app list_fields]. rewrite Epu, E1. cbn [tmap parsed_rows].
+    reflexivity. }
+  destruct (E rows _ OK) as (hdrs & E1 & F1).
+  unfold list_model. rewrite E1. cbn [tmap tbind]. unfold grouped_values. cbn [l_primary l_groupings l_fields].
+  apply grouped_iter_rows; try assumption. apply map_length.
+Qed.
+
+(* plain list: the values in order *)
+Theorem list_plain_roundtrip primary values : tag_rt primary ->
+  tmap list_values (list_model primary [] (map (fun v => (tag_as_str primary, v)) values)) = TOk values.
+Proof.
+  intros (u & Eu & _). unfold list_model. induction values as [|v r IH]; [reflexivity|].
+  cbn [map list_fields]. rewrite Eu. destruct (list_fields (map (fun v0 => (tag_as_str primary, v0)) r)) as [l|e|]; simpl in *; try discriminate.
+  unfold list_values in *. simpl in *. inversion IH. reflexivity.
+Qed.
+
+(* ---------- stickers: the FIRST '=' separates name and value ---------- *)
+
+Lemma split_once_first sep x y : ~ In sep x -> split_once sep (x ++ sep :: y) = Some (x, y).
+Proof.
+  induction x as [|c r IH]; intros H; simpl.
+  - rewrite N.eqb_refl. reflexivity.
+  - destruct (c =? sep) eqn:E; [apply N.eqb_eq in E; subst; exfalso; apply H; left; reflexivity|].
+    rewrite IH; [reflexivity|]. intros Hin. apply H. right. exact Hin.
+Qed.
+
+Lemma sticker_value_rt name value : sticker_name_ok name -> parse_sticker_value (sticker_line name value) = TOk (name, value).
+Proof. intros H. unfold parse_sticker_value, sticker_line. cbn [app]. rewrite split_once_first by exact H. reflexivity. Qed.
+
+(* a value containing '=' survives *)
+Theorem sticker_get_roundtrip name value : sticker_name_ok name ->
+  sticker_get_model (enc_sticker_get name value) = TOk value.
+Proof.
+  intros H. unfold sticker_get_model, enc_sticker_get. rewrite beq_refl, sticker_value_rt by exact H. reflexivity.
+Qed.
+
+Lemma map_insert_fresh k v m : ~ In k (map fst m) -> map_insert k v m = m ++ [(k, v)].
+Proof.
+  induction m as [|[k' v'] r IH]; simpl; intros H; [reflexivity|].
+  destruct (beq k' k) eqn:E; [apply beq_eq in E; subst; tauto|]. rewrite IH by tauto. reflexivity.
+Qed.
+
+Lemma nodup_app_fresh (m : list (bytes * bytes)) k v l : NoDup (map fst (m ++ (k, v) :: l)) ->
+  ~ In k (map fst m) /\ NoDup (map fst ((m ++ [(k, v)]) ++ l)).
+Proof.
+  intros H. rewrite <- app_assoc. split; [|exact H].
+  rewrite map_app in H. simpl in H. apply NoDup_remove_2 in H. intros Hin. apply H. apply in_or_app. left. exact Hin.
+Qed.
+
+Theorem sticker_list_roundtrip l : Forall (fun p => sticker_name_ok (fst p)) l ->
+  forall m, NoDup (map fst (m ++ l)) -> sticker_list m (enc_sticker_list l) = TOk (m ++ l).
+Proof.
+  induction 1 as [|[n v] l Hn _ IH]; intros m ND; simpl; [rewrite app_nil_r; reflexivity|].
+  rewrite sticker_value_rt by exact Hn. destruct (nodup_app_fresh m n v l ND) as [F ND'].
+  rewrite map_insert_fresh by exact F. rewrite IH by exact ND'. rewrite <- app_assoc. reflexivity.
+Qed.
+
+(* find: each sticker is paired with the file line that precedes it *)
+Theorem sticker_find_roundtrip name l : sticker_name_ok name ->
+  forall m file, NoDup (map fst (m ++ l)) -> sticker_find file m (enc_sticker_find name l) = TOk (m ++ l).
+Proof.
+  intros Hn. induction l as [|[f v] l IH]; intros m file ND; [simpl; rewrite app_nil_r; reflexivity|].
+  unfold enc_sticker_find. cbn [flat_map app fst snd sticker_find].
+  change (beq (b "file") (b "file")) with true. change (beq (b "sticker") (b "file")) with false.
+  change (beq (b "sticker") (b "sticker")) with true. cbn iota.
+  rewrite sticker_value_rt by exact Hn. destruct (nodup_app_fresh m f v l ND) as [F ND'].
+  rewrite map_insert_fresh by exact F. fold (enc_sticker_find name l). rewrite IH by exact ND'.
+  rewrite <- app_assoc. reflexivity.
+Qed.
+
+(* ---------- playlists, channels, messages, tag types ---------- *)
+
+Theorem playlists_roundtrip l : Forall (fun p => canonical_timestamp (snd p) = true) l ->
+  forall acc, playlists None acc (enc_playlists l) = TOk (rev acc ++ l).
+Proof.
+  induction 1 as [|[n ts] l Hts _ IH]; intros acc; [simpl; rewrite app_nil_r; reflexivity|].
+  unfold enc_playlists. cbn [flat_map app fst snd playlists].
+  change (beq (b "playlist") (b "playlist")) with true. change (beq (b "Last-Modified") (b "Last-Modified")) with true. cbn iota.
+  unfold timestamp_from_value. simpl in Hts. rewrite Hts. fold (enc_playlists l). rewrite IH.
+  cbn [rev]. rewrite <- app_assoc. reflexivity.
+Qed.
+
+Theorem channels_roundtrip l : channels_model (enc_channels l) = TOk l.
+Proof.
+  induction l as [|c l IH]; [reflexivity|]. cbn [enc_channels map channels_model].
+  change (beq (b "channel") (b "channel")) with true. cbn iota. fold (enc_channels l). rewrite IH. reflexivity.
+Qed.
+
+Theorem messages_roundtrip l : messages_model (enc_messages l) = TOk l.
+Proof.
+  induction l as [|[c m] l IH]; [reflexivity|]. unfold enc_messages. cbn [flat_map app fst snd messages_model].
+  change (beq (b "channel") (b "channel")) with true. change (beq (b "message") (b "message")) with true. cbn iota.
+  fold (enc_messages l). rewrite IH. reflexivity.
+Qed.
+
+Theorem tagtypes_roundtrip names tags : Forall2 (fun n t => tag_try_from n = TagOk t) names tags ->
+  tagtypes_model (enc_tagtypes names) = TOk tags.
+Proof.
+  induction 1 as [|n t names tags E _ IH]; [reflexivity|]. cbn [enc_tagtypes map tagtypes_model].
+  change (beq (b "tagtype") (b "tagtype")) with true. cbn iota. rewrite E. fold (enc_tagtypes names). rewrite IH. reflexivity.
+Qed.
+
+(* ---------- album art chunk: size, optional type, payload ---------- *)
+
+Theorem albumart_roundtrip size mime data : size < 2 ^ 64 ->
+  albumart_model (mkFrame (enc_fields [(b "size", Some (render_dec size)); (b "type", mime)]) (Some data))
+  = TOk (Some (size, mime, data)).
+Proof.
+  intros H. unfold albumart_model. cbn [f_binary f_fields]. rewrite albumart_is_lookup.
+  rewrite (runL_ext _ _ (look1 [(b "size", Some (render_dec size)); (b "type", mime)])).
+  2:{ intros k. rewrite s_find_enc. apply look_look1. apply nodupb_sound. vm_compute. reflexivity. }
+  unfold albumart_prog.
+  rewrite (step_val _ _ _ _ (render_dec size) size); [|reflexivity|apply from_uint_rt; exact H].
+  rewrite (step_raw _ _ _ mime) by reflexivity. reflexivity.
+Qed.
+
+Theorem albumart_none fs : albumart_model (mkFrame fs None) = TOk None.
+Proof. reflexivity. Qed.
